@@ -68,6 +68,21 @@ class AccessMixin(object):
     if ty.k in ('list', 'set', 'dict', 'deque', 'str', 'tuple'):
       yield st, VBound('method', attr, recv=base)
       return
+    if ty.k == 'structfmt':
+      yield st, VBound('structm', attr, recv=base)
+      return
+    if ty.k == 'ref' and ty.name == 'Stream' and attr in ('write', 'read', 'getvalue', 'tell', 'seek'):
+      yield st, VBound('stream', attr, recv=base)
+      return
+    if ty.k == 'any':
+      # an opaque value whose class the code has just tested: a field declared by exactly one class
+      owners = [c for c, ci in self.reg.classes.items() if attr in ci.fields]
+      if len(owners) == 1:
+        yield st, self.load_field(st, base.t, owners[0], attr)
+        return
+      if attr in ('encode', 'startswith', 'endswith', 'lower'):
+        yield st, VBound('method', attr, recv=V(STR, base.t))    # used as text
+        return
     if ty.k != 'ref':
       raise Unsupported('attribute %s of %r (line %s)' % (attr, base, getattr(node, 'lineno', '?')))
     # None dereference
@@ -514,9 +529,15 @@ class AccessMixin(object):
       if a.ty.k == 'tuple':
         return z3.IntVal(len(a.items))
       if a.ty.k == 'str':
-        if a.py is not None:
+        if isinstance(a.py, (str, bytes)):
           return z3.IntVal(len(a.py))
         return self.strlen(a.t)
+      if a.ty.k == 'bytes':
+        from .bytesalg import blen
+        return blen(a.py)
+      if a.ty.k == 'any':
+        st.assume(self.strlen(a.t) >= 0)
+        return self.strlen(a.t)      # len() of an opaque value used as text
     raise Unsupported('len(%r)' % (a,))
 
   def isinstance_(self, st, v, c):
@@ -552,6 +573,8 @@ class AccessMixin(object):
       return z3.BoolVal(False)
     if k != 'ref' and k != 'any':
       return z3.BoolVal(False)
+    if k == 'any' and cname in self.reg.classes:
+      return z3.And(v.t != 0, z3.Or(*[self.dyn_class(st, v.t) == self.class_id(s) for s in self.subclasses_of(cname)]))
     if cname not in self.reg.classes:
       raise Unsupported('isinstance against undeclared class %s' % cname)
     if k == 'ref' and self.is_subclass(v.ty.name, cname):
@@ -730,6 +753,7 @@ class AccessMixin(object):
       nc = z3.Int(fresh_name('card'))
       st.assume(nc >= z3.Select(ca, d.t))
       st.assume(nc >= z3.Select(ca, e.t))
+      st.assume(nc <= z3.Select(ca, d.t) + z3.Select(ca, e.t))
       st.heap[ck] = z3.Store(ca, d.t, nc)
       yield st, NONE_V
     else:
@@ -749,9 +773,14 @@ class AccessMixin(object):
         f = z3.Function('str_lower', I, I)
         yield st, V(STR, f(s.t))
     elif name == 'encode':
-      f = z3.Function('utf8', I, I)
-      r = f(s.t)
-      st.assume(self.strlen(r) >= self.strlen(s.t))
-      yield st, V(STR, r)
+      from .bytesalg import mk_bytes, const_atoms
+      if isinstance(s.py, str):
+        yield st, mk_bytes(const_atoms(s.py.encode('utf-8')))
+      else:
+        f = z3.Function('utf8', I, I)
+        g = z3.Function('utf8len', I, I)
+        # UTF-8 never has fewer bytes than the text has characters (equal exactly for ASCII text)
+        st.assume(z3.And(g(s.t) >= self.strlen(s.t), g(s.t) >= 0))
+        yield st, mk_bytes([('raw', f(s.t), g(s.t))])
     else:
       raise Unsupported('str.%s (line %s)' % (name, getattr(node, 'lineno', '?')))
